@@ -3,6 +3,7 @@ package harness
 import (
 	"bytes"
 	"errors"
+	"fmt"
 
 	mqtt "github.com/mochi-mqtt/server/v2"
 	"github.com/mochi-mqtt/server/v2/packets"
@@ -102,8 +103,10 @@ func connIdx(cl *mqtt.Client) int {
 	if c, ok := cl.Net.Conn.(*Conn); ok {
 		return c.Idx
 	}
-	if w, ok := cl.Net.Conn.(interface{ Underlying() *Conn }); ok {
-		return w.Underlying().Idx
+	// wrapped connections (the real websocket wsConn embeds the simulated conn): identified by remote address
+	var idx int
+	if n, _ := fmt.Sscanf(cl.Net.Conn.RemoteAddr().String(), "simclient:%d", &idx); n == 1 {
+		return idx
 	}
 	return -1
 }
